@@ -4,7 +4,8 @@ import CppUModel.Model.Registry
 Driver for C02: replays harness traces through the registry model and judges the
 implementation's observations with the property's specification oracle.  The oracle is written
 independently of the model: its own naive substring test, its own reading of the filter
-semantics, sorting for "is a permutation", a token automaton for "balanced".
+semantics, sorting for "is a permutation", a token automaton for "balanced", its own
+duplicate removal and joining for the list modes.
 Imports Base/Model/Gen only.
 -/
 open Registry
@@ -33,12 +34,52 @@ def execCounts (n : Nat) (evs : List Ev) : List Nat :=
     | _ => a) (Array.replicate n 0)
   arr.toList
 
+def countsLine (c : Counters) : String :=
+  s!"counts {c.testCount} {c.runCount} {c.ignoredCount} {c.filteredOutCount}"
+
+def foundLine (o : Option Nat) : String :=
+  match o with
+  | some i => s!"found {i}"
+  | none => "found none"
+
+/-- the harness gives every shell the file name `scripted.cpp` and the line `id + 1` -/
+def scriptedFile : Text.Bytes := ofAscii "scripted.cpp"
+
+def fieldOf (key : String) (ws : List String) : Option String :=
+  (ws.find? (fun w => w.startsWith (key ++ "="))).map (fun w => (w.drop (key.length + 1)).toString)
+
+def listModeOf (s : Option String) : ListMode :=
+  match s with
+  | some "lg" => .groups
+  | some "ln" => .names
+  | some "ll" => .locations
+  | _ => .none
+
+/-- the runner's output as tokens: adjacent texts are one `T<hex>` token -/
+def streamTokens (out : List ROut) : List String :=
+  let rec go (pending : Text.Bytes) : List ROut → List String
+    | [] => if pending.isEmpty then [] else ["T" ++ Proto.hex pending]
+    | .text b :: rest => go (pending ++ b) rest
+    | .run _ evs :: rest =>
+      (if pending.isEmpty then [] else ["T" ++ Proto.hex pending]) ++ evs.map Ev.render ++ go [] rest
+  go [] out
+
+def runsOfOut (out : List ROut) : List (Counters × List Ev) :=
+  out.filterMap (fun o => match o with | .run c e => some (c, e) | _ => none)
+
+def repLines (n : Nat) (runs : List (Counters × List Ev)) : List String :=
+  let rec go (k : Nat) : List (Counters × List Ev) → List String
+    | [] => []
+    | (c, evs) :: rest =>
+      [s!"rep {k} " ++ countsLine c, s!"rep {k} " ++ idsLine "execs" (execCounts n evs)] ++ go (k + 1) rest
+  go 1 runs
+
 def modelStep (d : DState) (op : List String) (obs : List (List String)) : DState × List String :=
   let r := d.reg
   match op with
   | ["test", kind, g, n] =>
     match Proto.unhex? g, Proto.unhex? n with
-    | some g, some n => ({ reg := r.addTest g n (kind == "i") }, [])
+    | some g, some n => ({ reg := r.addTest g n (kind == "i") scriptedFile (r.objs.size + 1) }, [])
     | _, _ => (d, ["bad-op"])
   | "gfilter" :: flags :: hex :: _ =>
     match filterOf flags hex with
@@ -62,10 +103,57 @@ def modelStep (d : DState) (op : List String) (obs : List (List String)) : DStat
     ({ reg := r' }, [idsLine "from" r.order] ++ sr ++ [idsLine "rands" used, idsLine "order" r'.order])
   | ["run"] =>
     let res := r.run
-    let c := res.1
-    (d, [" ".intercalate ("cb" :: res.2.map Ev.render),
-         s!"counts {c.testCount} {c.runCount} {c.ignoredCount} {c.filteredOutCount}",
-         idsLine "execs" (execCounts r.objs.size res.2)])
+    ({ reg := r.afterRun },
+     [" ".intercalate ("cb" :: res.2.map Ev.render), countsLine res.1,
+      idsLine "execs" (execCounts r.objs.size res.2)])
+  | ["undo"] =>
+    let r' := r.unDoLastAddTest
+    ({ reg := r' }, [idsLine "from" r.order, idsLine "order" r'.order])
+  | ["find", "name", hex] =>
+    match Proto.unhex? hex with
+    | some t => (d, [idsLine "order" r.order, foundLine (findTestWithName t r.tests)])
+    | none => (d, ["bad-op"])
+  | ["find", "group", hex] =>
+    match Proto.unhex? hex with
+    | some t => (d, [idsLine "order" r.order, foundLine (findTestWithGroup t r.tests)])
+    | none => (d, ["bad-op"])
+  | ["count"] => (d, [idsLine "order" r.order, s!"count {countTestsList r.tests}"])
+  | ["prev", x] =>
+    let target := if x == "null" then none else x.toNat?
+    (d, [idsLine "order" r.order, foundLine (getTestWithNext target r.tests)])
+  | ["shellri", i] =>
+    match i.toNat? with
+    | some i => ({ reg := r.shellSetRunIgnored i }, [])
+    | none => (d, ["bad-op"])
+  | ["willrun"] =>
+    (d, [" ".intercalate ("willrun" :: r.objs.toList.map (fun t => if t.willRun then "1" else "0"))])
+  | ["list", mode] =>
+    let zeros := idsLine "execs" (List.replicate r.objs.size 0)
+    match mode with
+    | "lg" => (d, [idsLine "order" r.order, "text " ++ Proto.hex (listTestGroupNames r.tests), countsLine {}, zeros])
+    | "ln" =>
+      let res := listTestGroupAndCaseNames r.cfg r.tests
+      (d, [idsLine "order" r.order, "text " ++ Proto.hex res.1, countsLine res.2, zeros])
+    | "ll" => (d, [idsLine "order" r.order, "text " ++ Proto.hex (listTestLocations r.tests), countsLine {}, zeros])
+    | _ => (d, ["bad-op"])
+  | "runner" :: ws =>
+    let rep := ((fieldOf "rep" ws).bind String.toNat?).getD 0
+    let seed := (fieldOf "seed" ws).bind String.toNat?
+    let a : RunnerArgs :=
+      { groupFilters := r.groupFilters, nameFilters := r.nameFilters, runIgnored := r.runIgnored,
+        reversing := fieldOf "rev" ws == some "1", shuffleSeed := seed,
+        repeatCount := if rep == 0 then 1 else rep, listMode := listModeOf (fieldOf "list" ws) }
+    let rs := natsOf "rands" obs
+    let n := r.order.length
+    let res := runnerRunAllTests a r rs
+    let runs := runsOfOut res.2.1
+    let shuffles := if seed.isSome && a.listMode == .none then a.repeatCount else 0
+    let srands := if n == 0 then [] else List.replicate shuffles ((seed.getD 0) % 4294967296)
+    ({ reg := res.1 },
+     [idsLine "from" r.order, s!"ret {res.2.2}", idsLine "srands" srands,
+      idsLine "rands" (rs.take (shuffles * randsNeeded n)),
+      " ".intercalate ("stream" :: streamTokens res.2.1)] ++ repLines r.objs.size runs ++
+     [idsLine "order" res.1.order])
   | ["skip"] => (d, [])
   | _ => (d, ["bad-op"])
 
@@ -82,7 +170,9 @@ structure SFilter where
   invert : Bool
 
 structure Shadow where
-  tests      : Array STest := #[]
+  tests      : Array STest := #[]           -- every shell ever created
+  flags      : Array Bool := #[]            -- shell told to run although ignored
+  members    : List Nat := []               -- shells currently registered (sorted)
   gf         : List SFilter := []
   nf         : List SFilter := []
   runIgnored : Bool := false
@@ -103,11 +193,18 @@ def kindAccepts (fs : List SFilter) (s : List UInt8) : Bool :=
 def selected (sh : Shadow) (t : STest) : Bool :=
   kindAccepts sh.gf t.group && kindAccepts sh.nf t.name
 
-def runs (sh : Shadow) (t : STest) : Bool := !t.ignored || sh.runIgnored
+def selectedId (sh : Shadow) (i : Nat) : Bool :=
+  match sh.tests[i]? with
+  | some t => selected sh t
+  | none => false
+
+/-- the body of a selected test runs: plain test, registry runs ignored tests, or the shell was told to -/
+def runsId (sh : Shadow) (i : Nat) : Bool :=
+  match sh.tests[i]? with
+  | some t => !t.ignored || sh.runIgnored || sh.flags.getD i false
+  | none => false
 
 def sortNats (l : List Nat) : List Nat := (l.toArray.qsort (· < ·)).toList
-
-def isPermOfRange (l : List Nat) (n : Nat) : Bool := sortNats l == List.range n
 
 def lineOf (tag : String) (obs : List (List String)) : Except String (List Nat) :=
   match obs.find? (fun l => l.head? == some tag) with
@@ -154,76 +251,260 @@ def cbCheck (toks : List String) : Except String Unit := do
     ph ← cbStep ph t
   if ph != .done then throw "callback sequence does not end with tests-ended"
 
+/-- the implementation's `from`/`order` line must hold exactly the registered shells, and agree
+    with the order it showed last -/
+def checkMembers (sh : Shadow) (what : String) (l : List Nat) : Except String Unit := do
+  if sortNats l != sh.members then
+    throw s!"{what}: the list does not hold every registered test exactly once ({l.length} linked, {sh.members.length} registered)"
+  if let some prev := sh.order then
+    if prev != l then throw s!"{what}: list order changed without reverse/shuffle"
+
+/-- one `runAllTests`: callbacks `toks`, counters, per-shell execution counters.
+    `ord` = the list order during the run when the oracle knows it. -/
+def checkRun (sh : Shadow) (ord : Option (List Nat)) (toks : List String) (counts execs : List Nat) :
+    Except String Unit := do
+  match cbCheck toks with
+  | .error e => throw s!"group/test notifications not balanced: {e}"
+  | .ok _ => pure ()
+  let started := toks.filterMap (tokId "ts")
+  let executed := toks.filterMap (tokId "x")
+  let ids := sh.members
+  let n := ids.length
+  let sel := ids.filter (selectedId sh)
+  let selRun := ids.filter fun i => selectedId sh i && runsId sh i
+  let selIgn := ids.filter fun i => selectedId sh i && !runsId sh i
+  -- each test executed exactly once iff selected (and not an ignored test), else not at all
+  if execs.length != sh.tests.size then throw "execution counters missing"
+  for i in List.range sh.tests.size do
+    let want := if selRun.contains i then 1 else 0
+    let got := execs.getD i 0
+    if got != want then
+      throw s!"test {i} executed {got} times, expected {want} (registered={ids.contains i} selected={sel.contains i})"
+  if sortNats started != sel then
+    throw s!"started tests are not exactly the selected tests, each once"
+  if sortNats executed != selRun then
+    throw s!"executed tests are not exactly the selected non-ignored tests, each once"
+  if let some ord := ord then
+    if started != ord.filter (fun i => sel.contains i) then throw "tests did not start in list order"
+  let [tc, rc, ic, fc] := counts | throw "malformed counts line"
+  if tc != n then throw s!"test count {tc}, {n} registered"
+  if rc + ic + fc != n then throw s!"run {rc} + ignored {ic} + filtered out {fc} does not sum to {n} registered tests"
+  if rc != selRun.length then throw s!"run count {rc}, {selRun.length} tests were selected to run"
+  if ic != selIgn.length then throw s!"ignored count {ic}, {selIgn.length} selected tests are ignored tests"
+  if fc != n - sel.length then throw s!"filtered-out count {fc}, {n - sel.length} tests are not selected"
+
+/-- what a run leaves in the shells: with run-ignored on, every registered ignored shell will run from now on -/
+def afterRunShadow (sh : Shadow) : Shadow :=
+  if sh.runIgnored then
+    { sh with flags := sh.members.foldl (fun fl i =>
+        match sh.tests[i]? with
+        | some t => if t.ignored then fl.setIfInBounds i true else fl
+        | none => fl) sh.flags }
+  else sh
+
+def dedupKeepFirst (l : List (List UInt8)) : List (List UInt8) :=
+  l.foldl (fun acc x => if acc.contains x then acc else acc ++ [x]) []
+
+def joinSpaces (l : List (List UInt8)) : List UInt8 :=
+  match l with
+  | [] => []
+  | x :: xs => xs.foldl (fun acc y => acc ++ [32] ++ y) x
+
+def decBytes (n : Nat) : List UInt8 := (toString n).toList.map (fun c => UInt8.ofNat c.toNat)
+
+/-- documented output of a list mode for list order `ord`; `none` when the names are outside
+    what the `#`-delimited bookkeeping of the implementation is documented for -/
+def expectedListing (sh : Shadow) (mode : String) (ord : List Nat) : Option (List UInt8) :=
+  let ts := ord.filterMap (fun i => (sh.tests[i]?).map (fun t => (i, t)))
+  if mode == "lg" then
+    let gs := ts.map (fun p => p.2.group)
+    if gs.any (fun g => g.contains 35 || g == [32]) then none
+    else some (joinSpaces (dedupKeepFirst gs))
+  else if mode == "ln" then
+    let es := (ts.filter (fun p => selected sh p.2)).map (fun p => p.2.group ++ [46] ++ p.2.name)
+    if es.any (fun e => e.contains 35) then none
+    else some (joinSpaces (dedupKeepFirst es))
+  else
+    some (ts.foldl (fun acc p =>
+      acc ++ p.2.group ++ [46] ++ p.2.name ++ [46] ++ "scripted.cpp".toUTF8.toList ++ [46] ++ decBytes (p.1 + 1) ++ [10]) [])
+
+def parseFilter (flags hex : String) : Except String SFilter := do
+  let some fl := flags.toNat? | throw "bad filter op"
+  let some text := Proto.unhex? hex | throw "bad filter op"
+  return { text := text, strict := fl % 2 == 1, invert := (fl / 2) % 2 == 1 }
+
+/-- split a runner stream into printed text and the token lists of the runs (`S … E`) -/
+def splitStream (toks : List String) : List UInt8 × List (List String) :=
+  let rec go (text : List UInt8) (cur : Option (List String)) (runs : List (List String)) :
+      List String → List UInt8 × List (List String)
+    | [] => (text, (match cur with | some c => runs ++ [c] | none => runs))
+    | t :: rest =>
+      if t.startsWith "T" && cur.isNone then
+        go (text ++ ((Proto.unhex? (t.drop 1).toString).getD [])) cur runs rest
+      else if t == "S" then
+        go text (some ["S"]) (match cur with | some c => runs ++ [c] | none => runs) rest
+      else if t == "E" then
+        go text none (runs ++ [(cur.getD []) ++ ["E"]]) rest
+      else go text (some ((cur.getD []) ++ [t])) runs rest
+  go [] none [] toks
+
 def specStep (sh : Shadow) (o : Proto.Op) : Except String Shadow := do
-  let n := sh.tests.size
   match o.op with
   | ["test", kind, g, nm] =>
     let some g := Proto.unhex? g | throw "bad test op"
     let some nm := Proto.unhex? nm | throw "bad test op"
-    return { sh with tests := sh.tests.push { group := g, name := nm, ignored := kind == "i" }, order := none }
+    return { sh with tests := sh.tests.push { group := g, name := nm, ignored := kind == "i" },
+                     flags := sh.flags.push false,
+                     members := sh.members ++ [sh.tests.size], order := none }
   | "gfilter" :: flags :: hex :: _ =>
-    let some fl := flags.toNat? | throw "bad filter op"
-    let some text := Proto.unhex? hex | throw "bad filter op"
-    return { sh with gf := { text := text, strict := fl % 2 == 1, invert := (fl / 2) % 2 == 1 } :: sh.gf }
+    let f ← parseFilter flags hex
+    return { sh with gf := f :: sh.gf }
   | "nfilter" :: flags :: hex :: _ =>
-    let some fl := flags.toNat? | throw "bad filter op"
-    let some text := Proto.unhex? hex | throw "bad filter op"
-    return { sh with nf := { text := text, strict := fl % 2 == 1, invert := (fl / 2) % 2 == 1 } :: sh.nf }
+    let f ← parseFilter flags hex
+    return { sh with nf := f :: sh.nf }
   | ["cmdline"] => return sh
   | ["runignored"] => return { sh with runIgnored := true }
   | ["reverse"] =>
     let fr ← lineOf "from" o.obs
     let ord ← lineOf "order" o.obs
-    if !isPermOfRange fr n then throw s!"before reverse the list does not hold every registered test exactly once"
-    if let some prev := sh.order then
-      if prev != fr then throw "list order changed without reverse/shuffle"
-    if !isPermOfRange ord n then throw s!"reverse lost or duplicated a test ({ord.length} linked, {n} registered)"
+    checkMembers sh "before reverse" fr
+    if sortNats ord != sh.members then throw s!"reverse lost or duplicated a test ({ord.length} linked, {sh.members.length} registered)"
     if ord != fr.reverse then throw "reverse did not produce the exact reverse order"
     return { sh with order := some ord }
   | "shuffle" :: _ =>
     let fr ← lineOf "from" o.obs
     let ord ← lineOf "order" o.obs
-    if !isPermOfRange fr n then throw s!"before shuffle the list does not hold every registered test exactly once"
-    if let some prev := sh.order then
-      if prev != fr then throw "list order changed without reverse/shuffle"
-    if !isPermOfRange ord n then throw s!"shuffle lost or duplicated a test ({ord.length} linked, {n} registered)"
+    checkMembers sh "before shuffle" fr
+    if sortNats ord != sh.members then throw s!"shuffle lost or duplicated a test ({ord.length} linked, {sh.members.length} registered)"
     return { sh with order := some ord }
   | ["run"] =>
     if o.obs.any (fun l => l == ["list-cycle"]) then
       throw "the linked list of tests is cyclic: runAllTests would never end (a test was duplicated)"
     let some cb := o.obs.find? (fun l => l.head? == some "cb") | throw "no callback line"
-    let toks := cb.drop 1
-    match cbCheck toks with
-    | .error e => throw s!"group/test notifications not balanced: {e}"
-    | .ok _ => pure ()
-    let started := toks.filterMap (tokId "ts")
-    let executed := toks.filterMap (tokId "x")
-    let ids := List.range n
-    let sel := ids.filter fun i => match sh.tests[i]? with | some t => selected sh t | none => false
-    let selRun := ids.filter fun i => match sh.tests[i]? with | some t => selected sh t && runs sh t | none => false
-    let selIgn := ids.filter fun i => match sh.tests[i]? with | some t => selected sh t && !runs sh t | none => false
-    -- each test executed exactly once iff selected (and not an ignored test), else not at all
+    let counts ← lineOf "counts" o.obs
     let execs ← lineOf "execs" o.obs
-    if execs.length != n then throw "execution counters missing"
-    for i in ids do
-      let want := if selRun.contains i then 1 else 0
-      let got := execs.getD i 0
-      if got != want then
-        throw s!"test {i} executed {got} times, expected {want} (selected={sel.contains i})"
-    if sortNats started != sel then
-      throw s!"started tests are not exactly the selected tests, each once"
-    if sortNats executed != selRun then
-      throw s!"executed tests are not exactly the selected non-ignored tests, each once"
-    if let some ord := sh.order then
-      if started != ord.filter (fun i => sel.contains i) then throw "tests did not start in list order"
-    -- counters
-    let [tc, rc, ic, fc] ← lineOf "counts" o.obs | throw "malformed counts line"
-    if tc != n then throw s!"test count {tc}, {n} registered"
-    if rc + ic + fc != n then throw s!"run {rc} + ignored {ic} + filtered out {fc} does not sum to {n} registered tests"
-    if rc != selRun.length then throw s!"run count {rc}, {selRun.length} tests were selected to run"
-    if ic != selIgn.length then throw s!"ignored count {ic}, {selIgn.length} selected tests are ignored tests"
-    if fc != n - sel.length then throw s!"filtered-out count {fc}, {n - sel.length} tests are not selected"
+    checkRun sh sh.order (cb.drop 1) counts execs
+    return afterRunShadow sh
+  | ["undo"] =>
+    let fr ← lineOf "from" o.obs
+    let ord ← lineOf "order" o.obs
+    checkMembers sh "before unDoLastAddTest" fr
+    if ord != fr.drop 1 then throw "unDoLastAddTest did not remove exactly the first test of the list"
+    return { sh with order := some ord, members := sortNats ord }
+  | ["find", what, hex] =>
+    let some text := Proto.unhex? hex | throw "bad find op"
+    let ord ← lineOf "order" o.obs
+    checkMembers sh "find" ord
+    let want := ord.find? fun i =>
+      match sh.tests[i]? with
+      | some t => (if what == "name" then t.name else t.group) == text
+      | none => false
+    let got := match o.obs.find? (fun l => l.head? == some "found") with
+      | some [_, x] => x.toNat?
+      | _ => none
+    if got != want then throw s!"findTestWith{what} returned {got}, the first match in list order is {want}"
+    return { sh with order := some ord }
+  | ["count"] =>
+    let ord ← lineOf "order" o.obs
+    checkMembers sh "countTests" ord
+    let [c] ← lineOf "count" o.obs | throw "malformed count line"
+    if c != sh.members.length then throw s!"countTests() = {c}, {sh.members.length} tests are registered"
+    return { sh with order := some ord }
+  | ["prev", x] =>
+    let ord ← lineOf "order" o.obs
+    checkMembers sh "getTestWithNext" ord
+    let want : Option Nat :=
+      if x == "null" then ord.getLast?
+      else match x.toNat? with
+        | some i =>
+          match ord.idxOf? i with
+          | some (k + 1) => ord[k]?
+          | _ => none
+        | none => none
+    let got := match o.obs.find? (fun l => l.head? == some "found") with
+      | some [_, y] => y.toNat?
+      | _ => none
+    if got != want then throw s!"getTestWithNext({x}) returned {got}, the predecessor in the list is {want}"
+    return { sh with order := some ord }
+  | ["shellri", i] =>
+    let some i := i.toNat? | throw "bad shellri op"
+    match sh.tests[i]? with
+    | some t => return (if t.ignored then { sh with flags := sh.flags.setIfInBounds i true } else sh)
+    | none => return sh
+  | ["willrun"] =>
+    let got ← lineOf "willrun" o.obs
+    if got.length != sh.tests.size then throw "willrun line has the wrong length"
+    for i in List.range sh.tests.size do
+      let want := match sh.tests[i]? with
+        | some t => if !t.ignored || sh.flags.getD i false then 1 else 0
+        | none => 0
+      if got.getD i 0 != want then throw s!"willRun() of shell {i} is {got.getD i 0}, expected {want}"
     return sh
+  | ["list", mode] =>
+    let ord ← lineOf "order" o.obs
+    checkMembers sh "list" ord
+    if o.obs.any (fun l => l.head? == some "cb") then throw s!"list mode {mode} issued test/group notifications"
+    let execs ← lineOf "execs" o.obs
+    if execs.any (· != 0) then throw s!"list mode {mode} ran a test"
+    let counts ← lineOf "counts" o.obs
+    let unsel := (ord.filter (fun i => !selectedId sh i)).length
+    let wantCounts := if mode == "ln" then [0, 0, 0, unsel] else [0, 0, 0, 0]
+    if counts != wantCounts then throw s!"list mode {mode} left counters {counts}, expected {wantCounts}"
+    let some [_, hex] := o.obs.find? (fun l => l.head? == some "text") | throw "no text line"
+    let some text := Proto.unhex? hex | throw "malformed text line"
+    match expectedListing sh mode ord with
+    | some want =>
+      if text != want then
+        throw s!"list mode {mode} printed `{Text.toStringLossy text}`, documented: `{Text.toStringLossy want}`"
+    | none => pure ()
+    return { sh with order := some ord }
+  | "runner" :: ws =>
+    let fr ← lineOf "from" o.obs
+    let ord ← lineOf "order" o.obs
+    checkMembers sh "before the runner" fr
+    if sortNats ord != sh.members then
+      throw s!"the runner lost or duplicated a test ({ord.length} linked, {sh.members.length} registered)"
+    let rep := ((fieldOf "rep" ws).bind String.toNat?).getD 0
+    let reps := if rep == 0 then 1 else rep
+    let shuffling := ((fieldOf "seed" ws).bind String.toNat?).isSome
+    let rev := fieldOf "rev" ws == some "1"
+    let mode := (fieldOf "list" ws).getD "none"
+    let some stream := o.obs.find? (fun l => l.head? == some "stream") | throw "no stream line"
+    let (text, runs) := splitStream (stream.drop 1)
+    let [ret] ← lineOf "ret" o.obs | throw "malformed ret line"
+    let repObs := o.obs.filter (fun l => l.head? == some "rep")
+    if mode != "none" then
+      -- list modes: nothing runs, nothing is reordered, the listing is the documented one
+      if !runs.isEmpty || !repObs.isEmpty then throw s!"list mode -{mode} ran tests"
+      if ord != fr then throw s!"list mode -{mode} reordered the tests"
+      if ret != 0 then throw s!"list mode -{mode} returned {ret}"
+      match expectedListing sh mode fr with
+      | some want =>
+        if text != want then
+          throw s!"-{mode} printed `{Text.toStringLossy text}`, documented: `{Text.toStringLossy want}`"
+      | none => pure ()
+      return { sh with order := some ord }
+    if runs.length != reps then throw s!"{runs.length} repetitions ran, -r asked for {reps}"
+    let start := if rev then fr.reverse else fr
+    let mut cur := sh
+    let mut k := 1
+    for toks in runs do
+      let counts := match repObs.find? (fun l => l.take 3 == ["rep", toString k, "counts"]) with
+        | some l => (l.drop 3).filterMap String.toNat?
+        | none => []
+      let execs := match repObs.find? (fun l => l.take 3 == ["rep", toString k, "execs"]) with
+        | some l => (l.drop 3).filterMap String.toNat?
+        | none => []
+      match checkRun cur (if shuffling then none else some start) toks counts execs with
+      | .error e => throw s!"repetition {k} of {reps}: {e}"
+      | .ok _ => pure ()
+      cur := afterRunShadow cur
+      k := k + 1
+    if !shuffling && ord != start then throw "the runner reordered the tests although no shuffle was asked for"
+    let ranNothing := (sh.members.filter (selectedId sh)).isEmpty
+    let wantRet := if ranNothing then reps else 0
+    if ret != wantRet then throw s!"runner returned {ret}, expected {wantRet}"
+    return { cur with order := some ord }
   | ["skip"] => return sh
   | _ => throw "bad-op"
 
